@@ -114,7 +114,7 @@ fn inv(op: &Op, _ctx: &dyn Context, data: &mut dyn CoordinateSet) -> usize {
         let coord = data.get_coord(i);
         let mut c = Coor4D::default();
         for j in 0..4_usize {
-            c[post[j]] = coord[j] * mult[post[j]];
+            c[post[j]] = coord[j] * mult[j];
         }
         data.set_coord(i, &c);
     }
@@ -272,8 +272,9 @@ fn combine_descriptors(
 ) -> CoordinateOrderDescriptor {
     let mut give = CoordinateOrderDescriptor::default();
     for i in 0..4 {
-        give.mult[i] = from.mult[i] / to.mult[i];
         give.post[i] = from.post.iter().position(|&p| p == to.post[i]).unwrap();
+        // The multiplier of the input element that ends up in position i
+        give.mult[i] = from.mult[give.post[i]] / to.mult[i];
     }
     give.noop = give.mult == [1.0; 4] && give.post == [0_usize, 1, 2, 3];
     give
